@@ -8,6 +8,7 @@ import (
 	"strconv"
 	"strings"
 
+	"github.com/FollowTheProcess/spok/cache"
 	"github.com/FollowTheProcess/spok/file"
 	"github.com/FollowTheProcess/spok/iostream"
 	"github.com/FollowTheProcess/spok/parser"
@@ -256,7 +257,7 @@ func History() {
 			if sym.Choice("crashkind", 2) == 0 {
 				w.crashCmd = sym.Int("crashcmd", 0, 11)
 			} else {
-				w.crashWrite = sym.Int("crashwrite", 0, 1)
+				w.crashWrite = sym.Int("crashwrite", 0, sym.ParamInt("maxwrite", 1))
 				w.crashStage = sym.Int("crashstage", 0, 3)
 			}
 		}
@@ -358,9 +359,10 @@ func History() {
 				} else {
 					sym.Reach("ran")
 					// ---- C02: unchanged since last success => skipped
-					// (not after a killed run: running an up-to-date task again then is the cautious
-					// behaviour, which no property forbids)
-					if !force && len(cur.paths) > 0 && prev != nil && prev.valid && prev.why != killed && samePaths(cur.paths, prev.paths) {
+					// (C02 quantifies over crash-free histories: once a run of the history has been
+					// killed, running an up-to-date task again is the cautious behaviour, which no
+					// property forbids)
+					if !force && !killedEarlier && len(cur.paths) > 0 && prev != nil && prev.valid && prev.why != killed && samePaths(cur.paths, prev.paths) {
 						// the task ran, so its inputs must differ from those of its last success
 						id := "C02/rerun-although-unchanged"
 						if prev.why != "" {
@@ -522,70 +524,42 @@ func invoke(sf *file.SpokFile, w *world, force bool, req []string) (results []re
 			panic(r)
 		}
 	}()
-	var old string
-	var existed bool
+	// The kill inside a write of the cache file: the same three crash points under the engine
+	// (the in-memory file system's WriteFile) and in the native replay (cache.Dump's write,
+	// instrumented at build time, see inpkg__cache__hook.go).
+	hook := func(path string, stage int, data string) {
+		if !strings.HasSuffix(path, "cache.json") || w.crashWrite < 0 || w.dying {
+			return
+		}
+		mine := w.writeNo == w.crashWrite
+		switch stage {
+		case 0: // before the file is touched
+			if mine && w.crashStage == 0 {
+				w.die()
+			}
+		case 1: // truncated: the file is empty
+			if mine && w.crashStage == 1 {
+				w.die()
+			}
+			if mine && w.crashStage == 2 {
+				writeRaw(path, data[:len(data)/2]) // a proper prefix is on disk
+				w.die()
+			}
+		case 2: // complete
+			if mine && w.crashStage == 3 {
+				w.die()
+			}
+			w.writeNo++
+		}
+	}
 	if sym.Symbolic() {
-		vfs.WriteHook = func(path string, stage int, data string) {
-			if !strings.HasSuffix(path, "cache.json") || w.crashWrite < 0 || w.dying {
-				return
-			}
-			mine := w.writeNo == w.crashWrite
-			switch stage {
-			case 0: // before the file is touched
-				if mine && w.crashStage == 0 {
-					w.die()
-				}
-			case 1: // truncated: the file is empty
-				if mine && w.crashStage == 1 {
-					w.die()
-				}
-				if mine && w.crashStage == 2 {
-					vfs.Files[path].Content = data[:len(data)/2] // a proper prefix is on disk
-					w.die()
-				}
-			case 2: // complete
-				if mine && w.crashStage == 3 {
-					w.die()
-				}
-				w.writeNo++
-			}
-		}
+		vfs.WriteHook = hook
 		defer func() { vfs.WriteHook = nil }()
-	} else if w.crashWrite >= 0 {
-		// native emulation of a kill during a cache write (see env.go)
-		old, existed = nativeCacheBefore()
-		if !existed && w.crashWrite == 0 {
-			// the kill hits the placeholder written by cache.Init
-			var names []string
-			for n := range sf.Tasks {
-				names = append(names, n)
-			}
-			nativeMkdirCache()
-			tornCache(w.crashStage, "", false, placeholderJSON(names))
-			return nil, nil, true
-		}
+	} else {
+		cache.VerifWriteHook = hook
+		defer func() { cache.VerifWriteHook = nil }()
 	}
 	res, e := sf.Run(iostream.Null(), &runner{w}, force, req...)
-	if !sym.Symbolic() && w.crashWrite >= 0 {
-		// the kill hits the final Dump, if this run performed one
-		data := readContent(cachePath())
-		dumped := false
-		if existed {
-			dumped = w.crashWrite == 0 && nativeCacheRewritten()
-		} else {
-			var names []string
-			for n := range sf.Tasks {
-				names = append(names, n)
-			}
-			old, existed = placeholderJSON(names), true
-			dumped = w.crashWrite == 1 && e == nil && data != old
-		}
-		if dumped {
-			tornCache(w.crashStage, old, existed, data)
-			return nil, nil, true
-		}
-		return nil, e, false
-	}
 	for _, r := range res {
 		results = append(results, resultView{r.Task, r.Skipped})
 	}
